@@ -158,7 +158,9 @@ func assetParams() htlctypes.Params {
 	dep := mc.Addr("D").String()
 	one, five := sdkmath.NewInt(1), sdkmath.NewInt(5)
 	return htlctypes.Params{AssetParams: []htlctypes.AssetParam{
-		{Denom: bnb, SupplyLimit: htlctypes.SupplyLimit{Limit: sdkmath.NewInt(10), TimeLimited: true, TimePeriod: 60 * time.Second, TimeBasedLimit: sdkmath.NewInt(4)},
+		// bnb: the total limit binds (in1 3 + in2 2 > 4) while the per-period limit alone would admit both;
+		// eth: the per-period limit binds (3 + 2 > 3) while the total limit is far
+		{Denom: bnb, SupplyLimit: htlctypes.SupplyLimit{Limit: sdkmath.NewInt(4), TimeLimited: true, TimePeriod: 60 * time.Second, TimeBasedLimit: sdkmath.NewInt(4)},
 			Active: true, DeputyAddress: dep, FixedFee: one, MinSwapAmount: one, MaxSwapAmount: five, MinBlockLock: 50, MaxBlockLock: 60},
 		{Denom: eth, SupplyLimit: htlctypes.SupplyLimit{Limit: sdkmath.NewInt(8), TimeLimited: true, TimePeriod: 90 * time.Second, TimeBasedLimit: sdkmath.NewInt(3)},
 			Active: true, DeputyAddress: dep, FixedFee: one, MinSwapAmount: one, MaxSwapAmount: five, MinBlockLock: 50, MaxBlockLock: 60},
